@@ -1033,7 +1033,7 @@ def run_c18(ctx: Ctx):
     n_runs = n_spec = n_names = 0
     nsp = int(os.environ.get("VERIF_NSPEC", 0)) or (60 if (ctx.tier == "thorough") else 6)
     for idx, case in enumerate(gencheck.spec_stream(ctx, nsp, avoid_known_bugs=True)):
-        if not (ctx.tier == "thorough") and case.flags.get("catalogue") and idx % 3 != 0:
+        if not (ctx.tier == "thorough") and case.flags.get("catalogue") and idx % 3 != 0 and idx > 1:
             continue
         case.files = complete_tree(case.files)
         try:
@@ -1110,9 +1110,12 @@ def run_c18(ctx: Ctx):
                     for n, info in res["names"].items():
                         n_names += 1
                         if not (info["top_is_class"] and info["home_is_class"] and info["same"]):
+                            # only the catalogue tree written to exhibit the recorded finding may match it
+                            key = "export:partial-init" if "KNOWN[C18:export:partial-init]" in case.tag and not info["home_is_class"] else None
                             fails(ctx, case, f"declared type {n} is not exported as one class from the top-level package and its home subpackage "
-                                  f"(first import {first}): {info}", {"name": n, "first_import": first})
-                            return
+                                  f"(first import {first}): {info}", {"name": n, "first_import": first}, key=key)
+                            if key is None or not ctx.known_match(key):
+                                return
             finally:
                 shutil.rmtree(scratch, ignore_errors=True)
         finally:
